@@ -89,7 +89,9 @@ func (c clientCodec) Decode(response []byte, context *ClientContext) (result []i
 			tag = decoder.NextByte()
 			count := 1
 			if tag == io.TagList {
-				count = decoder.ReadInt()
+				if count = decoder.ReadInt(); count < 0 {
+					count = 0
+				}
 				decoder.AddReference(nil)
 				for i := 0; i < n && i < count; i++ {
 					results[i] = decoder.Read(returnType[i])
